@@ -12,6 +12,7 @@
 EXTENDS TLC, Json, Sequences, FiniteSets, Naturals
 
 CONSTANTS SbomIds,    \* ids of the SBOM format sets a build result may carry (see SbomSetOf)
+          OtherNames, \* executable names that are neither "detect" nor "build"
           EmitTR
 
 VARIABLES pc,    \* control point
@@ -65,7 +66,7 @@ ApiCheck2 ==
 
 Dispatch ==
   /\ pc = "Dispatch"
-  /\ \/ Guard("exe", "other")
+  /\ \/ \E n \in OtherNames : Guard("exe", n)
      \/ Go("DetectArgs", "exe", "detect")
      \/ Go("BuildArgs", "exe", "build")
 
@@ -149,13 +150,15 @@ BuildUser ==
      \/ \E e \in {"buildpack", "layer"} :
           /\ cfg' = [cfg EXCEPT !.berror = e, !.pre = Yes(pre)] /\ pc' = "Exit"
           /\ out' = [out EXCEPT !.userbuild = 1, !.exit = "err", !.onerror = "1"]
-     \/ \E la \in BOOLEAN, st \in BOOLEAN, bs \in SbomIds, ls \in SbomIds :
-          /\ cfg' = [cfg EXCEPT !.berror = "none", !.launch = Yes(la), !.storeout = Yes(st),
+     \* a part of the result may be provided with content ("yes"), provided but empty
+     \* ("empty": still provided, so still written) or not provided ("no")
+     \/ \E la \in {"yes", "empty", "no"}, st \in {"yes", "empty", "no"}, bs \in SbomIds, ls \in SbomIds :
+          /\ cfg' = [cfg EXCEPT !.berror = "none", !.launch = la, !.storeout = st,
                                 !.bsbom = bs, !.lsbom = ls, !.pre = Yes(pre)]
           /\ pc' = "Exit"
           /\ out' = [out EXCEPT !.userbuild = 1, !.exit = "0",
-                       !.files = (IF la THEN {"launch.toml"} ELSE {})
-                                 \cup (IF st THEN {"store.toml"} ELSE {})
+                       !.files = (IF la # "no" THEN {"launch.toml"} ELSE {})
+                                 \cup (IF st # "no" THEN {"store.toml"} ELSE {})
                                  \cup SbomFiles("build", SbomSetOf(bs))
                                  \cup SbomFiles("launch", SbomSetOf(ls))]
 
@@ -197,8 +200,8 @@ BuildWritesExactlyProvided ==
      /\ (out.exit = "0") = (cfg.berror = "none")
      /\ (out.exit # "0") => out.files = {}
      /\ (out.exit = "0") =>
-          /\ ("launch.toml" \in out.files) = (cfg.launch = "yes")
-          /\ ("store.toml" \in out.files) = (cfg.storeout = "yes")
+          /\ ("launch.toml" \in out.files) = (cfg.launch \in {"yes", "empty"})
+          /\ ("store.toml" \in out.files) = (cfg.storeout \in {"yes", "empty"})
           /\ \A f \in {"cdx.json", "spdx.json", "syft.json"} :
                /\ (("build.sbom." \o f) \in out.files) = (f \in SbomSetOf(cfg.bsbom))
                /\ (("launch.sbom." \o f) \in out.files) = (f \in SbomSetOf(cfg.lsbom))
@@ -207,7 +210,7 @@ BuildWritesExactlyProvided ==
 GuardsBeforeUserCode ==
   AtExit =>
     ((\/ cfg.bpdir = "unset" \/ cfg.desc \in {"otherapi", "malformed", "missing", "restbad"}
-      \/ cfg.exe = "other"
+      \/ cfg.exe \in OtherNames
       \/ (cfg.exe = "detect" /\ cfg.argc # "2") \/ (cfg.exe = "build" /\ cfg.argc # "3")
       \/ "unset" \in {cfg.t_os, cfg.t_arch, cfg.t_dname, cfg.t_dver})
      => (out.userdetect = 0 /\ out.userbuild = 0 /\ out.exit \notin {"0", "-"}))
